@@ -96,6 +96,16 @@ func vhIncreasing(name string, n int) []int {
 	return out
 }
 
+// vhC06ListsFor: list sizes 0..2, 0..2, 0..1 (thorough 0..2); the three-way
+// intersections get three lists of exactly two values in the quick tier (with
+// a one-element list the driving iterator could never be advanced twice).
+func vhC06ListsFor(which int) *vhC06Lists {
+	if vTier() == 0 && (which == 3 || which == 11) {
+		return &vhC06Lists{a: vhIncreasing("a", 2), b: vhIncreasing("b", 2), ab: vhIncreasing("ab", 2)}
+	}
+	return &vhC06Lists{a: vhIncreasing("a", vChoice("na", 3)), b: vhIncreasing("b", vChoice("nb", 3)), ab: vhIncreasing("ab", vChoice("nab", 2+vTier()))}
+}
+
 func vhSeqMapN(f func(i int) error, n int, goroutines int) error {
 	for i := 0; i < n; i++ {
 		if err := f(i); err != nil {
@@ -214,16 +224,16 @@ func vhC06Run(kind int, which int, l *vhC06Lists, nops int) {
 //
 //vh:steps=6000000 split=5 wall.thorough=2400
 func VH_C06_TreeIndex() {
-	l := &vhC06Lists{a: vhIncreasing("a", vChoice("na", 3)), b: vhIncreasing("b", vChoice("nb", 3)), ab: vhIncreasing("ab", vChoice("nab", 2+vTier()))}
-	vhC06Run(0, vChoice("query", vhC06NumQueries), l, 2+vTier())
+	which := vChoice("query", vhC06NumQueries)
+	vhC06Run(0, which, vhC06ListsFor(which), 2+vTier())
 }
 
 // Array index (ArrayIndex, sorted and deduplicated by Finish).
 //
 //vh:steps=6000000 split=5 wall.thorough=2400
 func VH_C06_ArrayIndex() {
-	l := &vhC06Lists{a: vhIncreasing("a", vChoice("na", 3)), b: vhIncreasing("b", vChoice("nb", 3)), ab: vhIncreasing("ab", vChoice("nab", 2+vTier()))}
-	vhC06Run(1, vChoice("query", vhC06NumQueries), l, 2+vTier())
+	which := vChoice("query", vhC06NumQueries)
+	vhC06Run(1, which, vhC06ListsFor(which), 2+vTier())
 }
 
 // ArrayIndex.Finish: unsorted input with duplicates becomes a sorted set.
